@@ -32,7 +32,8 @@ def encBT : Basis ℚ × Tensor ℚ → Val := fun (b, cp) => .list [encodeBasis
     `c14_interp_curve basis tol t x`, `c14_lsq_curve basis tol t x`,
     `c14_cubic boundary tol cp_rtol cp_atol x t tangents`, `c14_bezier tol pts quadratic relative`,
     `c14_rebuild obj tol p n`, `c14_interp_grid bases tol u [shape,flat]`,
-    `c14_lsq_grid bases tol u [shape,flat]`, `c14_loft bases tol [[shape,flat]…] dist`. -/
+    `c14_lsq_grid bases tol u [shape,flat]`, `c14_loft bases tol [[shape,flat]…] dist`,
+    `c14_error obj target tol nodes weights` → `[err2 per span, err_inf²]`. -/
 def handle : Handler
   | "c14_interp_curve", [bv, tolv, tv, xv] => some <| Id.run do
       let some b := decodeBasis bv | return bad
@@ -86,6 +87,13 @@ def handle : Handler
       let some secs := sl.mapM decodeTensor | return bad
       let some dist := dv.toRats? | return bad
       return ofExcept encBT (loft bases tol secs dist)
+  | "c14_error", [ov, tv, tolv, nv, wv] => some <| Id.run do
+      let some o := decodeObj ov | return bad
+      let some t := decodeObj tv | return bad
+      let some tol := tolv.toRat? | return bad
+      let some nodes := nv.toRats? | return bad
+      let some weights := wv.toRats? | return bad
+      return ofExcept (fun (r : List ℚ × ℚ) => .list [Val.ofRats r.1, .num r.2]) (curveError o t tol nodes weights)
   | "c14_nop", [v] => some v
   | _, _ => none
 
